@@ -64,6 +64,16 @@ def gen_case(rnd, cid):
         b.ins[ra] = b.ins[ra].replace("const", "priv")
         rr = b.emit(f"un {op} r{ra}", "?")
         meta = {"shape": "un", "op": op, "kinds": "L"}
+    elif shape < 0.84:
+        # array element read at a secret index: the element read is determined by the index ("... or array element")
+        n = rnd.randrange(2, 5)
+        elems = []
+        for _ in range(n):
+            e = b.operand("L", value=rnd.randrange(0, half)); b.ins[e] = b.ins[e].replace("const", "priv").replace("pub", "priv"); elems.append(e)
+        arr = b.emit("arr " + " ".join(f"r{e}" for e in elems), "A")
+        ix = b.operand("L", value=rnd.randrange(0, n)); b.ins[ix] = b.ins[ix].replace("const", "priv").replace("pub", "priv")
+        rr = b.emit(f"aget r{arr} r{ix}", "?")
+        meta = {"shape": "aget", "op": "aget", "kinds": f"n{n}"}
     elif shape < 0.9:
         rc = b.operand("B", value=rnd.choice([0, 1]))
         rt = b.operand("L", value=rnd.randrange(-half, half)); rf = b.operand("L", value=rnd.randrange(-half, half))
